@@ -147,6 +147,11 @@ def handle (op : String) (args : List String) : Option String :=
     let n ← parseInt n
     let back ← resOfString back
     pure (verdict (C25.specAton n back) "ip_aton:-")
+  | "o.c25.ntoa", [s, "|", there, back] => do
+    let s ← bytesOfHex s
+    let there ← resOfString there
+    let back ← resOfString back
+    pure (verdict (C25.specNtoa s there back) "ip_ntoa:-")
   | "o.c25.pton", [b, "|", _there, back] => do
     let b ← bytesOfHex b
     let back ← resOfString back
